@@ -4,6 +4,7 @@
   `rfl`/`decide` do evaluate.  Core only.
 -/
 import PgVerif.Basic.Canon
+import Std.Data.String.ToNat
 namespace PgVerif.Proofs.Cluster
 open PgVerif
 
@@ -67,5 +68,54 @@ theorem utf8_digit (c : Char) (h : c.isDigit = true) : ∃ b : UInt8, String.utf
     simp only [UInt32.toNat_toUInt8]
     show c.val.toNat % 256 ≤ 57
     omega
+
+
+
+theorem strBytes_inj (a b : String) (h : strBytes a = strBytes b) : a = b := by
+  unfold strBytes at h
+  rw [String.toUTF8_eq_toByteArray, String.toUTF8_eq_toByteArray, byteArray_toList, byteArray_toList] at h
+  apply String.toByteArray_inj.mp
+  apply ByteArray.ext
+  exact Array.toList_inj.mp h
+
+/-- decimal text of a natural number, as the path builders produce it -/
+def decBytes (n : Nat) : Bytes := strBytes (toString n)
+
+theorem decBytes_inj (a b : Nat) (h : decBytes a = decBytes b) : a = b := by
+  have := strBytes_inj _ _ h
+  exact Nat.repr_inj.mp this
+
+theorem decBytes_digits (n : Nat) : ∀ b ∈ decBytes n, (48 : UInt8) ≤ b ∧ b ≤ 57 := by
+  intro b hb
+  unfold decBytes at hb
+  rw [strBytes_eq] at hb
+  obtain ⟨c, hc, hbc⟩ := List.mem_flatMap.mp hb
+  have hcd : c ∈ Nat.toDigits 10 n := by
+    have : (toString n).toList = Nat.toDigits 10 n := Nat.toList_repr
+    rw [← this]; exact hc
+  obtain ⟨b', hb', h1, h2⟩ := utf8_digit c (Nat.isDigit_of_mem_toDigits (by decide) (by decide) hcd)
+  rw [hb'] at hbc
+  simp only [List.mem_singleton] at hbc
+  subst hbc
+  exact ⟨h1, h2⟩
+
+/-- two decimal numbers each followed by a `/`: equal texts have equal parts -/
+theorem digits_slash_cancel : ∀ (xs ys r r' : Bytes), (∀ b ∈ xs, (48 : UInt8) ≤ b) → (∀ b ∈ ys, (48 : UInt8) ≤ b) →
+    xs ++ 47 :: r = ys ++ 47 :: r' → xs = ys ∧ r = r'
+  | [], [], r, r', _, _, h => by simp at h; exact ⟨rfl, h⟩
+  | [], y :: ys, r, r', _, hy, h => by
+    simp only [List.nil_append, List.cons_append, List.cons.injEq] at h
+    have := hy y (by simp)
+    rw [← h.1] at this
+    exact absurd this (by decide)
+  | x :: xs, [], r, r', hx, _, h => by
+    simp only [List.nil_append, List.cons_append, List.cons.injEq] at h
+    have := hx x (by simp)
+    rw [h.1] at this
+    exact absurd this (by decide)
+  | x :: xs, y :: ys, r, r', hx, hy, h => by
+    simp only [List.cons_append, List.cons.injEq] at h
+    obtain ⟨h1, h2⟩ := digits_slash_cancel xs ys r r' (fun b hb => hx b (by simp [hb])) (fun b hb => hy b (by simp [hb])) h.2
+    exact ⟨by rw [h.1, h1], h2⟩
 
 end PgVerif.Proofs.Cluster
